@@ -212,9 +212,9 @@ def run(pid, tier, seed, replay=None):
     if thorough:
         runs = [
             ('mcYA', consts('Y', 'CandA', 'BoundsAll', [0, 1, 2, 3], 'T')),
-            ('mcYB', consts('Y', 'CandB', 'BoundsAll', [1, 2, 3], 'T')),
+            ('mcYB', consts('Y', 'CandB', 'Q', [0, 1, 2, 3], 'T')),
             ('mcLA', consts('L', 'CandA', 'BoundsAll', [0, 1, 2, 3], 'T')),
-            ('mcLB', consts('L', 'CandB', 'BoundsAll', [1, 2, 3], 'T')),
+            ('mcLB', consts('L', 'CandB', 'Q', [0, 1, 2, 3], 'T')),
             ('mcYC', consts('Y', 'CandC', 'Q', [1, 2], 'Q')),  # 10 entries, both outcomes at the same instants
             ('mcJA', consts('J', 'CandA', 'Q', [0, 1, 2], 'T')),
             ('mcJB', consts('J', 'CandB', 'Q', [1, 2], 'Q')),
